@@ -292,3 +292,22 @@ Definition mg_postdel (g : graph) (s : N) : bool :=
 Definition managed (g : graph) (cy : list N) : bool :=
   forallb (mg_ref1 g) (g_ref1 g) && forallb (mg_ref0 g cy) (g_ref0 g) &&
   forallb (mg_postdel g) (map s_id (g_sts g)).
+
+(* ------------------------------------------------------------------ facts about the cycle set *)
+(* the cycle set contains only per-mapper records *)
+Definition cyc_shape (cy : list N) : bool := forallb (fun n => N.ltb (N.modulo n 7) 3) cy.
+(* facts about the cycle set that the code itself relies on (the first is its assertion); decidable,
+   evaluated on every case of the correspondence *)
+Definition procs_follow (g : graph) (cy : list N) : bool :=
+  forallb (fun d => (negb (incyc cy (ProcAll (d_id d) false)) || incyc cy (SaveAll (d_parent d))) &&
+                    (negb (incyc cy (ProcAll (d_id d) true)) || incyc cy (DelAll (d_parent d)))) (g_deps g).
+Definition cyc_ok (g : graph) (cy : list N) : bool := cyc_shape cy && paired g cy && procs_follow g cy.
+
+
+(* index of the layer that contains n *)
+Fixpoint lidx (r : list (list N)) (n : N) : option nat :=
+  match r with
+  | [] => None
+  | l :: r' => if memb n l then Some O else match lidx r' n with Some k => Some (S k) | None => None end
+  end.
+
